@@ -143,6 +143,8 @@ def register(reg, repo):
               post=["callcount('env.fncall') == 1", "exact(result, ConstFuture) and computed(result)"],
               xpost=["True"]))
     register_asyncio(reg, repo)
+    register_more(reg, repo)
+    register_patch(reg, repo)
     for cls in ("_AsynqWrapper", "_AsyncioWrapper"):
         reg.add(C("mock_.%s.__setattr__" % cls, modifies=[], post=["False"], xpost=["isinstance(exc, TypeError)"]))
         reg.add(C("mock_.%s.__getattr__" % cls, modifies=[], post=["False"], xpost=["isinstance(exc, TypeError)"]))
@@ -249,3 +251,86 @@ def register_asyncio(reg, repo):
                       "len(tasks) == old(len(awaitables))", DONE_ALL,
                       "all(exact(tasks[k], asyncio_Task) for k in range(0, len(tasks)))", "inv()", "two_state('old')"]},
               note="results are read (task.result requires done) only after awaiting ALL_COMPLETED"))
+
+
+def register_more(reg, repo):
+    """Second batch (C09/C19): rebinding of the sync_fn pair, mock replacement wrapping."""
+    DE = "decorators."
+    # qcore.decorators.decorate(Cls, *args) builds a decorator factory; applying it to fn constructs Cls(fn, *args)
+    reg.add(C("env.decorate", params=["cls", "*args"], modifies=["$alloc"], trusted=True, labels={"keeps_inv": True},
+              post=["alloc(result)"], xpost=None, note="qcore.decorators.decorate(cls, *args): factory, no effect"))
+    reg.add(C("env.decorate.apply", params=["factory", "fn"], kind="callvalue", modifies="*", trusted=True,
+              post=["alloc(result)"], xpost=["True"], note="factory(fn) -> cls(fn, *args)"))
+    reg.add(C("env.descr.get", params=["self", "owner", "cls"], kind="method", modifies=["$alloc"], trusted=True, labels={"keeps_inv": True},
+              post=["alloc(result)"], xpost=None, note="descriptor __get__ of sync_fn (function / staticmethod / classmethod binding)"))
+    reg.add(C("env.base.get", params=["self", "owner", "cls"], modifies=["$alloc"], trusted=True, labels={"keeps_inv": True},
+              post=["alloc(result)"], xpost=None,
+              note="qcore DecoratorBase.__get__: static -> the decorator itself; else binder_cls(decorator, cls or owner) (shipped source)"))
+    reg.add(C("env.typecall", params=["tp", "fn"], kind="callvalue", modifies=["$alloc"], trusted=True, labels={"keeps_inv": True},
+              post=["alloc(result)", "result is wrapped_by(tp, fn)"], xpost=None, note="staticmethod(fn) / classmethod(fn)"))
+    import z3
+    from pyvc import smt
+    reg.pyfuncs["wrapped_by"] = lambda env, tp, fn: z3.Function("wrapped_by", smt.V, smt.V, smt.V)(tp, fn)
+    DEC = "qcore.decorators.decorate(AsyncAndSyncPairDecorator, self.task_cls, sync_fn, self.kwargs, self.asyncio_fn)"
+    reg.add(C(DE + "AsyncAndSyncPairDecorator.__get__", modifies="*",
+              calls={"self.sync_fn.__get__": "env.descr.get", "self.type": "env.typecall", "qcore.decorators.decorate": "env.decorate",
+                     DEC: "env.decorate.apply", "AsyncDecorator.__get__": "env.base.get"},
+              labels={"noattrcheck": True,
+                      "site_requires": {
+                          "self.sync_fn.__get__": ["call_arg(1) is owner", "call_arg(2) is cls"],
+                          "qcore.decorators.decorate": ["call_arg(1) is self.task_cls", "call_arg(2) is sync_fn", "call_arg(3) is self.kwargs",
+                                                        "call_arg(4) is self.asyncio_fn"],
+                          DEC: ["implies(self.type is staticmethod or self.type is classmethod, call_arg(1) is wrapped_by(self.type, self.fn))",
+                                "implies(not (self.type is staticmethod or self.type is classmethod), call_arg(1) is self.fn)"],
+                          "AsyncDecorator.__get__": ["call_arg(0) is new_self", "call_arg(1) is owner", "call_arg(2) is cls"]},
+                      ("post", 0): "rebinds-sync_fn-and-rewraps-static-and-class-methods"},
+              post=["callcount('env.descr.get') == 1 and callcount('env.decorate.apply') == 1 and callcount('env.base.get') == 1",
+                    "retval is last_result('env.base.get')"],
+              xpost=["True"]))
+
+    # ---- mock_._maybe_wrap_new ---------------------------------------------------------------------------------------
+    reg.global_values[("mock", "DEFAULT")] = lambda eng: smt.const("glob:mock.DEFAULT")
+    reg.global_values["mock.DEFAULT"] = lambda eng: smt.const("glob:mock.DEFAULT")
+    reg.add(C("env.inspect.isfunction", params=["x"], modifies=[], trusted=True, pure_fn="isfunction", post=["result == isinstance(x, function)"],
+              xpost=None, returns_type="bool"))
+    reg.add(C("env.asynq.factory", params=["**kwargs"], modifies=["$alloc"], trusted=True, labels={"keeps_inv": True}, post=["alloc(result)"], xpost=None))
+    reg.add(C("env.setattr.probe", params=["obj"], modifies=[], trusted=True, post=[], xpost=["isinstance(exc, AttributeError) or isinstance(exc, TypeError)"],
+              note="`new._maybe_wrap_new_test_attribute = None; del ...`: succeeds iff the object accepts attributes"))
+    reg.add(C("mock_._maybe_wrap_new", modifies="*",
+              calls={"inspect.isfunction": "env.inspect.isfunction", "asynq": "env.asynq.factory", "asynq(sync_fn=new)": "env.decorate.apply"},
+              labels={"noattrcheck": True,
+                      "site_requires": {"asynq(sync_fn=new)": ["call_arg(1) is new"], "asynq": ["call_kw('sync_fn') is new"]},
+                      ("post", 0): "default-passes-through", ("post", 2): "non-callable-installed-as-is",
+                      ("post", 3): "attribute-refusing-callable-is-wrapped-in-a-callable-object-not-a-function"},
+              post=["implies(new is mock_DEFAULT(), retval is new)",
+                    "implies(new is not mock_DEFAULT() and (isinstance(new, function) or isinstance(new, classmethod) or isinstance(new, staticmethod)), "
+                    "callcount('env.decorate.apply') == 1 and retval is last_result('env.decorate.apply'))",
+                    "implies(new is not mock_DEFAULT() and not (isinstance(new, function) or isinstance(new, classmethod) or isinstance(new, staticmethod)) "
+                    "and not is_callable(new), retval is new)",
+                    "retval is new or callcount('env.decorate.apply') == 1 or (not isinstance(retval, function) and fresh(retval))"],
+              xpost=["True"]))
+    reg.pyfuncs["mock_DEFAULT"] = lambda env: smt.const("glob:mock.DEFAULT")
+    from pyvc.calls import CALLABLE
+    reg.pyfuncs["is_callable"] = lambda env, x: CALLABLE(x)
+
+
+def register_patch(reg, repo):
+    """C19: _PatchAsync.__enter__ attaches wrappers OF THE RETURNED REPLACEMENT ITSELF."""
+    reg.add(C("_patch.__enter__", params=["self"], kind="method", modifies="*", trusted=True, post=["alloc(result)"], xpost=["True"],
+              note="unittest.mock._patch.__enter__: installs and returns the replacement (trusted)"))
+    for cls in ("_AsynqWrapper", "_AsyncioWrapper"):
+        reg.add(C("mock_.%s.__init__" % cls, modifies=["_mock_fn"], calls={"object.__setattr__": "env.object.setattr"},
+                  labels={"noattrcheck": True},
+                  post=["self._mock_fn is mock_fn", "only(self, '_mock_fn')"], xpost=None, two_state=False))
+    reg.add(C("env.object.setattr", params=["obj", "name", "value"], modifies=["_mock_fn"], trusted=True,
+              post=["updated('_mock_fn', obj, value)"], xpost=None, note="object.__setattr__(self, '_mock_fn', v)"))
+    reg.add(C("mock_._PatchAsync.__enter__", modifies="*",
+              labels={"noattrcheck": True,
+                      "site_assumes_after": {},
+                      ("post", 1): "asynq-wrapper-forwards-to-the-returned-replacement",
+                      ("post", 2): "async-alias-is-the-same-wrapper", ("post", 3): "asyncio-wrapper-forwards-to-the-returned-replacement"},
+              post=["retval is last_result('_patch.__enter__')",
+                    "implies(is_callable(retval), exact(retval.asynq, _AsynqWrapper) and retval.asynq._mock_fn is retval)",
+                    "implies(is_callable(retval), field(retval, 'async') is retval.asynq)",
+                    "implies(is_callable(retval), exact(retval.asyncio, _AsyncioWrapper) and retval.asyncio._mock_fn is retval)"],
+              xpost=["True"]))
